@@ -1296,9 +1296,11 @@ impl Options {
             if cfg!(feature = "power-of-two") && exp < 13 {
                 // 11 for the exponent digits in binary, 1 for the sign, 1 for the symbol
                 count += 13;
-            } else if exp < 5 {
-                // 3 for the exponent digits in decimal, 1 for the sign, 1 for the symbol
-                count += 5;
+            } else if exp < 12 {
+                // 1 for the symbol, 1 for the sign, and 10 for the exponent digits: there are
+                // at most 3, but the decimal integer writer requires a buffer of at least
+                // `u32::FORMATTED_SIZE_DECIMAL` bytes to write them into.
+                count += 12;
             } else {
                 // More leading or trailing zeros than the exponent digits.
                 count += exp;
